@@ -1,7 +1,7 @@
 #!/usr/bin/env python3
 """Writes the task descriptions handed to the independent seeding sub-agents: /tmp/seedprompts/<ID>.txt.
 Each description contains only the text of one property (from properties.jsonl) and the path of the agent's own scratch
-worktree /tmp/seed-<ID>; nothing about the machinery in /verif.  usage: tools/seedprompts.py [hint-variant]"""
+worktree /tmp/seed-<ID>; nothing about the machinery in /verif.  usage: tools/seedprompts.py [hint-variant | clause:<set>]"""
 import json, os, sys
 variant = sys.argv[1] if len(sys.argv) > 1 else ""
 HINTS = {
@@ -9,6 +9,32 @@ HINTS = {
     "indirect": " For this assignment prefer a change in a file that is NOT among the code locations listed above but that they depend on (helper packages, interop models and channels, rendering, middleware, metering, telemetry, supervisor model, application context) - a change whose effect reaches the property only through another component; or a change to the error/slow path of an operation rather than to its normal path (what happens when a write fails, a peer is slow, a process is already gone, a channel is full, a header is missing). It must still need something specific to manifest.",
     "deep": " For this assignment prefer a violation that needs a HISTORY or a SCHEDULE rather than a special input value: e.g. something that only shows after an earlier failure/reset/timeout of a particular kind, on a second or third generation of the environment, when two events race in a particular order, or when a fault (process exit, slow peer, error report) arrives at a particular point of a protocol. Prefer a site that is not the most obvious one for this property.",
 }
+# round 4: one clause of each property that no earlier seeded change was aimed at (verbatim from the statement)
+CLAUSES = {
+ "a": {
+  "C01": "together with a fresh request id, the function ARN, the decoded client context",
+  "C02": "unknown ids and second submissions are refused with a client error. A refused submission has no effect on [...] the runtime's protocol state",
+  "C03": "every non-directory entry directly under the extensions directory is launched exactly once as an external extension named by its base name, the runtime process is not started until all of them have registered",
+  "C04": "a deadline within a few milliseconds of the runtime's, and the caller's trace header value; extensions not subscribed receive none",
+  "C05": "Every process of that execution environment is terminated (killed if necessary) before the answer is given [...] A response that arrives around the moment of expiry leads to either the response or the timeout outcome, never to both",
+  "C06": "Its body is the response the runtime had already delivered for that invocation, else the runtime's own init-error payload, else [...] a JSON error naming the first fault",
+  "C07": "Once all processes behave correctly again, at most one further invocation fails before service is normal.",
+  "C08": "no [...] cached error response, runtime identity string [...] from an earlier generation influences later invocations",
+  "C09": "no extension is registered, the runtime is killed at once [...] extensions not subscribed are killed without an event",
+  "C10": "has no effect on the in-flight invocation or on later ones",
+  "C11": "Arrivals beyond the expected count, and expected counts below the arrivals already made, are refused without changing the barrier.",
+  "C12": "init error is accepted only before the first next; snapshot-restore calls exist only in snapshot mode [...] (or 400 for a wrong request id, 404/405 for unknown routes)",
+  "C13": "an init error report allowed only between register and its first next and an exit error report any time after register, both final; every other call is refused with 403 and the documented error type and changes neither that extension's state nor any barrier count",
+  "C14": "Event payloads larger than the same limit are cut at the limit before delivery to the runtime.",
+  "C15": "tagged with whether it ran as the first init or inside an invocation [...] the extension status lines report each extension's true state and subscriptions",
+  "C16": "every variable not shadowed arrives unchanged, including values containing '=' [...] always the same Runtime API address as the runtime, which is the address the API server really listens on",
+  "C17": "optional headers (payload limit, response mode, bandwidth rate and burst) take their defaults whenever absent, independently of earlier requests [...] In streaming mode the volume forwarded by any time never exceeds burst plus rate times elapsed time",
+  "C18": "fails with a timeout error no later than shortly after the hook timeout if the runtime does neither [...] and returns at once if the runtime never entered the restore poll",
+  "C19": "takes the whole process group with it [...] fails with an error for unknown names, past deadlines or if the process outlives the deadline; Terminate delivers SIGTERM to the group without waiting",
+  "C20": "An X-Ray error cause is passed on only as valid JSON of at most 64 KiB whose fields are the original ones, possibly shortened; causes without any recognised field or with invalid JSON are dropped [...] fixed once features were appended",
+ },
+}
+CLAUSE_HINT = " For this assignment the violation must concern specifically THIS PART of the property (the rest of the property should keep holding): \"%s\". It must still need something specific to manifest."
 props = {}
 for l in open('/verif/properties.jsonl'):
     p = json.loads(l); props[p['id']] = p
@@ -34,5 +60,5 @@ Do not commit anything. When you are done, leave the worktree WITH your change a
 os.makedirs('/tmp/seedprompts', exist_ok=True)
 for pid, p in props.items():
     files = ', '.join(p['anchors'].get('files', [])[:10])
-    open('/tmp/seedprompts/%s.txt' % pid, 'w').write(tmpl.format(wt='/tmp/seed-%s' % pid, pid=pid, title=p['title'], statement=p['statement'], quant=p['quantifier']['text'], why=p['why_tests_cant'], files=files, hint=HINTS[variant]))
+    open('/tmp/seedprompts/%s.txt' % pid, 'w').write(tmpl.format(wt='/tmp/seed-%s' % pid, pid=pid, title=p['title'], statement=p['statement'], quant=p['quantifier']['text'], why=p['why_tests_cant'], files=files, hint=(CLAUSE_HINT % CLAUSES[variant.split(':')[1]][pid]) if variant.startswith('clause:') else HINTS[variant]))
 print(len(props), "prompts written to /tmp/seedprompts")
